@@ -12,6 +12,7 @@ import OFV.Proofs.C13Shape
 import OFV.Proofs.C13Grid
 import OFV.Proofs.C13Diag
 import OFV.Proofs.C13Sound
+import OFV.Proofs.C13Herm
 import Mathlib.Tactic.NormNum
 
 namespace OFV.C13
@@ -196,6 +197,17 @@ theorem spinless_hubbard_sound (tol : Rat) (φ : Term → GQ) (a : HubbardArgs) 
         (-a.t) * φ [(e.1, 1), (e.2, 0)] + (-a.t) * φ [(e.2, 1), (e.1, 0)] + a.u * φ [(e.1, 1), (e.1, 0), (e.2, 1), (e.2, 0)]) +
       gsumL ((List.range (a.x * a.y)).map fun s => (-a.mu) * φ [(s, 1), (s, 0)]) :=
   spinless_hubbard_sound' tol φ a hphs hex ht hreg hφ
+
+/-- **hermitian_generators** (spinless `fermi_hubbard`; real `t`, `U`, `μ`; every lattice size, both boundary
+conditions): with `φ†(τ) = conj φ(τ†)` (for `φ τ = ⟨t|τ|s⟩` this is `⟨s|τ|t⟩*`), the Model's output satisfies
+`⟦H⟧_{φ†} = conj ⟦H⟧_φ`, i.e. `⟨t|H|s⟩ = ⟨s|H|t⟩*` -/
+theorem spinless_hubbard_hermitian (tol : Rat) (φ : Term → GQ) (a : HubbardArgs) (hphs : a.phs = false)
+    (hex : ExactSum tol [] ((List.range (a.x * a.y)).flatMap (spinlessPieces tol a)))
+    (ht : a.t.conj = a.t) (hu : a.u.conj = a.u) (hmu : a.mu.conj = a.mu)
+    (hreg : GQ.isSmall tol (-a.t) = true → -a.t = 0)
+    (hφ : ∀ i j, φ [(i, 1), (i, 0), (j, 1), (j, 0)] = φ [(j, 1), (j, 0), (i, 1), (i, 0)]) :
+    den (adjF φ) (spinlessFermiHubbard tol a) = (den φ (spinlessFermiHubbard tol a)).conj :=
+  spinless_hubbard_hermitian' tol φ a hphs hex ht hu hmu hreg hφ
 
 /-- non-vacuity of the exact-regime hypothesis: the 1 × 1 lattice with `μ = 1` -/
 example : ExactSum (1 / 100000000) []
